@@ -5,7 +5,7 @@
    `lexical resolve1 resolve2`: Path.resolve() acts as this lexical normalisation, i.e. no
    symbolic links on the way (the correspondence exercises the real resolve() with symlinks). *)
 From DippyV Require Import Base.Str Base.Verdict Model.Fnmatch Model.Glob2 Model.Paths Model.Rules
-  Proofs.FnmatchP Proofs.RulesP Proofs.PathsP Proofs.Glob2P Proofs.C09P.
+  Proofs.FnmatchP Proofs.RulesP Proofs.PathsP Proofs.Glob2P Proofs.C09P Proofs.SpellP.
 
 Theorem C09_norm_idem : forall p, norm (norm p) = norm p.
 Proof. exact norm_idem. Qed.
@@ -74,12 +74,34 @@ Section Oracles.
     rrm cwd t r = true ->
     exists rest, nf home cwd t = nf home cwd D ++ c_slash :: rest.
   Proof. exact (confine resolve1 resolve2 home lex). Qed.
+  (* ---- second round: the PATTERN side.  A literal command rule written with one spelling of some
+     files fires on the command that names the same files in any other spelling, at every position
+     of the pattern (same_word: equal, or both path-shaped and respellings of each other; this
+     includes the lone tokens ".", "..", "~") ... *)
+  Theorem C09_rule_follows_file : forall cwd r pws cws,
+    prefixb [c_slash] cwd = true -> prefixb [c_slash] home = true ->
+    r_pat r = join [c_sp] pws -> forallb wordb pws = true ->
+    Forall2 (same_word home cwd) pws cws ->
+    no_glob (normalize_words resolve1 resolve2 home cwd cws) = true ->
+    word_rule_matches resolve1 resolve2 home cwd false (cmd_string resolve1 resolve2 home [] cwd false cws) r = true.
+  Proof. exact (rule_follows_file resolve1 resolve2 home lex). Qed.
+  (* ... and two rules whose patterns spell the same files are the same rule on every command
+     (no glob hypothesis: holds for glob patterns such as `cat ./src/*` vs `cat src/*` too) *)
+  Theorem C09_pattern_respell : forall cwd r r' pws pws' c,
+    prefixb [c_slash] cwd = true -> prefixb [c_slash] home = true ->
+    r_pat r = join [c_sp] pws -> r_pat r' = join [c_sp] pws' -> r_exact r = r_exact r' ->
+    forallb wordb pws = true -> forallb wordb pws' = true ->
+    Forall2 (same_word home cwd) pws pws' ->
+    word_rule_matches resolve1 resolve2 home cwd false c r = word_rule_matches resolve1 resolve2 home cwd false c r'.
+  Proof. exact (pattern_respell resolve1 resolve2 home lex). Qed.
 End Oracles.
 Print Assumptions C09_normalize_path.
 Print Assumptions C09_verdict.
 Print Assumptions C09_verdict_words.
 Print Assumptions C09_literal_fires_partial.
 Print Assumptions C09_confine_rule.
+Print Assumptions C09_rule_follows_file.
+Print Assumptions C09_pattern_respell.
 
 (* the matcher-level confinement fact and its reading on segments *)
 Theorem C09_confine : forall D t, no_glob D = true ->
@@ -153,6 +175,16 @@ Proof. exact legacy_root_target. Qed.
 Print Assumptions C09_legacy_root_target_refuted.
 
 (* non-vacuity *)
+(* the shape of the seeded change C07b: a lone ".." token of a pattern is resolved like the command's *)
+Example C09_example_lone_tokens :
+  normalize_pattern lex1 lex2 $"/home/u" $"/w/proj" $"git add .." = $"git add /w" /\
+  normalize_words lex1 lex2 $"/home/u" $"/w/proj" [$"git"; $"add"; $".."] = $"git add /w" /\
+  match_words lex1 lex2 $"/home/u" [] [rule_add_parent] $"/w/proj" false [$"git"; $"add"; $"/w/proj/.."] = Some rule_add_parent /\
+  match_words lex1 lex2 $"/home/u" [] [rule_add_parent] $"/w/proj" false [$"git"; $"add"; $"../"; $"-v"] = Some rule_add_parent /\
+  match_words lex1 lex2 $"/home/u" [] [rule_add_parent] $"/w/proj" false [$"git"; $"add"; $"."] = None /\
+  normalize_pattern lex1 lex2 $"/home/u" $"/w/proj" $"cp . ~ ~/x ./y  z/.." = $"cp /w/proj /home/u /home/u/x /w/proj/y /w/proj" /\
+  forallb wordb [$"git"; $"add"; $".."] = true /\ wordb $"a b" = false /\ wordb [] = false.
+Proof. exact lone_dotdot_example. Qed.
 Example C09_example_lexical : lexical lex1 lex2.
 Proof. exact lex_lexical. Qed.
 Example C09_example_respell :
